@@ -29,7 +29,10 @@ def obligations(ctx):
                       "reim_to_znx64_avx2_bnd50_fma", "all |x/d|<2^50"))
         obs.append(ob("to_znx64/direct/bnd63/d=2^%d" % dl, "h_to_znx64", {"M": 2, "DIVLOG": dl, "DOMLOG": 52, "DIRECT": "reim_to_znx64_avx2_bnd63_fma"},
                       "reim_to_znx64_avx2_bnd63_fma", "all |x/d|<2^52"))
-    for (m, avx, lb) in ((8, 1, 50), (8, 1, 63), (8, 0, 63), (4, 1, 63), (1, 1, 50)):
+    for (m, avx) in ((8, 1), (16, 1), (4, 1), (8, 0)):
+        obs.append(ob("to_znx64/select/m=%d/avx=%d/every-log2bound" % (m, avx), "h_to_znx64_select", {"M": m, "AVX": avx, "DIVLOG": 3},
+                      "init_reim_to_znx64_precomp", "declared bound symbolic in [0,64]: the kernel valid for |x/d|<2^50 only is never selected for a larger declared bound"))
+    for (m, avx, lb) in ((8, 1, 50), (8, 1, 51), (8, 1, 63), (8, 0, 63), (4, 1, 63), (1, 1, 50)) + (() if q else ((8, 1, 52), (8, 1, 53), (16, 1, 51))):
         obs.append(ob("to_znx64/init/m=%d/avx=%d/log2bound=%d" % (m, avx, lb), "h_to_znx64", {"M": m, "AVX": avx, "LOG2BOUND": lb, "DIVLOG": 3 if m > 1 else 0},
                       "reim_to_znx64 via init_reim_to_znx64_precomp", timeout=900))
     # double -> torus double; constants from the real init_reim_to_tnx_precomp.  The unsplit query (all |x/d|<=2^L in one go) is not
